@@ -110,7 +110,8 @@ func epochToInteger(value float64) int64 {
 
 func epochToTime(value float64) (Time.Time, error) {
 	epochWithMilli := value
-	if math.IsNaN(epochWithMilli) || math.IsInf(epochWithMilli, 0) {
+	// 15.9.1.14 TimeClip: a time value is at most 8.64e15 ms from the epoch.
+	if math.IsNaN(epochWithMilli) || math.IsInf(epochWithMilli, 0) || math.Abs(epochWithMilli) > 8.64e15 {
 		return Time.Time{}, fmt.Errorf("invalid time %v", value)
 	}
 
